@@ -88,6 +88,32 @@ def holdsStream (me : Bytes) (evs : List Ev) (tail : Tail) (ps : List Nat) (o : 
   checkReads eofOk (!eofOk) e.1 ps o.reads &&
   (!eofOk || !o.rbroken) && !o.wbroken
 
+/-! ### Forwarding through a stream (`runBidirectionalForward`) -/
+
+/-- What the two far ends of a forwarded tunnel see. -/
+structure FwObs where
+  up : Bytes        -- received by the peer stream until its end-of-stream
+  down : Bytes      -- received by the application until its end-of-stream
+  done : Bool       -- both saw the end-of-stream (and the forwarder returned)
+deriving DecidableEq, Repr
+
+/-- The forwarder seen through the stream model: upload = the application's bytes handed to
+`FrameStream.Write` in pieces `ups` (as `io.Copy` reads them), then `CloseWrite` (half-close); the peer
+reads to end-of-stream, then writes `down` and `Close`s; the other direction is a second stream run.
+Reads use frame-sized buffers, one more than there can be frames. -/
+def runForward (me : Bytes) (ups : List Bytes) (down : Bytes) : FwObs :=
+  let nu := ups.length + ups.flatten.length / crossnode.MaxFrameSize + 2
+  let nd := down.length / crossnode.MaxFrameSize + 3
+  let u := runStream me (ups.map .write ++ [.closeWrite]) (fun b => [b]) .eof false
+    (List.replicate nu crossnode.MaxFrameSize)
+  let d := runStream me [.write down, .close] (fun b => [b]) .eof false
+    (List.replicate nd crossnode.MaxFrameSize)
+  ⟨delivered u.reads, delivered d.reads, u.reads.contains .eof && d.reads.contains .eof⟩
+
+/-- **Forwarding on an observation**: everything the application sent before its half-close reached the
+peer, the peer's answer reached the application, both followed by end-of-stream. -/
+def holdsFw (up down : Bytes) (o : FwObs) : Bool := o.up == up && o.down == down && o.done
+
 /-! ### Decoder -/
 
 /-- The reason the decoder must give for stopping on the remaining bytes `rest`. -/
